@@ -38,6 +38,31 @@
     G.verifLaterResult = undefined;
     setTimeout(function () { G.verifLaterResult = G.verifCatch(name); });
   };
+  G.verifGraph = function (kind) {
+    var s = { x: 1.5 };
+    switch (kind) {
+      case 'tree': return { a: { x: 1.5 }, b: { x: 1.5 } };
+      case 'diamond': return { a: s, b: s };
+      case 'selfcycle': var o = { n: 1 }; o.self = o; return o;
+      case 'twocycle': var a = { n: 1 }, b = { n: 2 }; a.o = b; b.o = a; return a;
+      case 'mixed': return [s, s, { inner: s }];
+      case 'sharedarray': var r = [1, 2]; return { p: r, q: r };
+      case 'deepshared': var leaf = { v: 'L' }; return { l: { m: leaf }, r: { m: leaf }, t: leaf };
+    }
+  };
+  // calls the exposed Go function with one object whose properties A and B are distinct equal objects or the very same object
+  G.verifPairCall = function (name, kind) {
+    var s = { x: 1.5 }, t = { x: 1.5 };
+    switch (kind) {
+      case 'distinct': return G[name]({ A: s, B: t });
+      case 'shared': return G[name]({ A: s, B: s });
+      case 'shared-reversed': return G[name]({ B: s, A: s });
+      case 'map-distinct': return G[name]({ k: { A: s, B: t } });
+      case 'map-shared': return G[name]({ k: { A: s, B: s } });
+      case 'map-shared-reversed': return G[name]({ k: { B: s, A: s } });
+    }
+  };
+  G.verifTwoArgs = function (name) { var s = { x: 1.5 }; return G[name](s, s); };
   G.verifMake = function (kind) {
     switch (kind) {
       case 'true': return true; case 'false': return false; case 'zero': return 0; case 'negzero': return -0; case 'int': return 42; case 'frac': return 0.5;
@@ -49,6 +74,15 @@
       case 'function': return function (a, b) { return a + b; }; case 'nested': return { inner: { deep: [1] } };
       case 'counter': return { base: 5, add: function (x) { return this.base + x; }, join: function () { return this.base + ':' + Array.prototype.join.call(arguments, ','); }, width: 1 };
       case 'nonnumbers': return ['12.5px', '3 apples', '1.2.3', '1_000', '0x10', '', '   ', null, false, true, [], [1, 2], new Date(5), undefined, {}, '1e3', '-7.9', '  42  ', 'Infinity', '-0', '.5', '+8', [[3]], 'NaN'];
+      case 'actors': return ['first', 'second', 'third'].map(function (nm) {
+        return {
+          name: nm, list: [1, 2, 3],
+          who: function () { return this.name + ':' + Array.prototype.join.call(arguments, ','); },
+          remember: function () { this.last = this.name + ':' + Array.prototype.join.call(arguments, ','); },
+          fn: function () { return 'fn:' + Array.prototype.join.call(arguments, ','); },
+          Ctor: function () { this.d = 'new:' + Array.prototype.join.call(arguments, ','); }
+        };
+      });
       case 'big': return 9007199254740991; case 'negint': return -7;
       case 'wrapped': return { name: 'nm', count: 7, ratio: 1.5, flag: true, inner: { label: 'lab' }, fn: function (x) { return x * 2; } };
     }
